@@ -196,4 +196,46 @@ PartFollows(Mc, CS, Pc, Pf, fam, dim) ==
        IN /\ {x + 1 : x \in TRange(Pf.t[e + 1])} = expect
           /\ Len(Pf.t[e + 1]) = PartCountSum(Pc, fam, e, dim)
 
+\* ---- RootMeshNode::refine_unique(AdaptMode): none / chart / dual / chart|dual -----------------------------------------------
+\* One step produces from a coarse level Mc three fine levels of the SAME coarse node:
+\*    Mn = refinement without adaption (the plain regular refinement, fully specified by the relation above),
+\*    Xp = vertex coordinates after the chart adaption (mode without the dual bit),   Mf = the result with the full mode.
+\* Adaption never touches the topology or the mesh parts: it only moves vertices, and only the following ones.
+\*  chart:  only vertices in the vertex target set of a mesh part that carries a chart may move (frame condition); for the
+\*          graph chart  x_b = c + sgn * x_a^2 / 2^s  (an idempotent projection onto a graph over the coordinate plane x_b = c)
+\*          their new position is given exactly (all coordinates are integers at scale 2^K);
+\*  dual:   (documented for hypercubes of dimension >= 2, no-op otherwise) every vertex that is the midpoint of a coarse CELL
+\*          moves to the arithmetic mean of the (chart-adapted) midpoint vertices of the facets of that cell; nothing else moves.
+\*          Consequences that are theorems of this rule: on a mesh without chart adaption the mean of the facet midpoints IS the
+\*          barycentre, i.e. Mf = Mn (conformity, orientation and volume as for the plain refinement); in general the moved
+\*          vertices are interior to their coarse cell, so the total volume is the one before the dual adaption (DualVolume; a
+\*          polynomial identity of the flux formula, exact in integers).
+SameTopology(Ma, Mb) == Ma.n = Mb.n /\ Ma.idx = Mb.idx /\ Ma.bf = Mb.bf
+SameParts(Ma, Mb) == Len(Ma.parts) = Len(Mb.parts) /\ \A j \in 1..Len(Ma.parts) : Ma.parts[j] = Mb.parts[j]
+ChartVerts(M, names) == UNION {TRange(M.parts[j].t[1]) : j \in {k \in 1..Len(M.parts) : M.parts[k].name \in names}}
+ChartFrame(Mn, Xp, CV) ==
+  /\ Len(Xp) = Len(Mn.X)
+  /\ \A v \in 1..Len(Xp) : (v - 1) \notin CV => Xp[v] = Mn.X[v]
+Pow2K(k) == 2 ^ k
+GraphChartRule(Mn, Xp, CV, g, K) ==
+  \A v \in 1..Len(Xp) : (v - 1) \in CV =>
+    LET sq == Mn.X[v][g.a] * Mn.X[v][g.a]  dv == Pow2K(K + g.s) IN
+    /\ \A x \in 1..Len(Xp[v]) : x # g.b => Xp[v][x] = Mn.X[v][x]
+    /\ sq % dv = 0
+    /\ Xp[v][g.b] - g.c * Pow2K(K) = (IF g.neg THEN -1 ELSE 1) * (sq \div dv)
+AbsI(x) == IF x < 0 THEN -x ELSE x
+RECURSIVE SumAxis(_, _, _, _)
+SumAxis(Xs, vs, a, n) == IF n = 0 THEN 0 ELSE Xs[vs[n]][a] + SumAxis(Xs, vs, a, n - 1)
+DualRule(Mc, CS, par, Xp, Xf, fam, dim, usedual, tol) ==
+  LET nfe == NF(fam, dim, dim - 1) IN
+  /\ Len(Xf) = Len(Xp)
+  /\ \A v \in 1..Len(Xf) :
+       LET d == par[1][v][1]  i == par[1][v][2] IN
+       IF usedual /\ fam = "hypercube" /\ dim >= 2 /\ d = dim
+       THEN LET mids == [k \in 1..nfe |-> CHOOSE w \in ChildrenOf(Mc, CS, fam, dim - 1, Idx(Mc, dim, dim - 1)[i + 1][k], 0) : TRUE]
+            IN \A a \in 1..dim : AbsI(nfe * Xf[v][a] - SumAxis(Xp, mids, a, nfe)) <= tol
+       ELSE Xf[v] = Xp[v]
+WithX(M, Xs) == [n |-> M.n, idx |-> M.idx, X |-> Xs]
+DualVolume(Mf, Xp, fam, dim) == Volume(WithX(Mf, Mf.X), fam, dim) = Volume(WithX(Mf, Xp), fam, dim)
+
 =============================================================================
